@@ -588,9 +588,17 @@ def check_spellings(run: Run, impl: Impl, cov):
     if ok1 != (not bad_rows) or unexplained:
         run.fail("proof", "C13/spelling-table-check-inconsistent", "Coq table check and harness row check disagree",
                  {"coq_ok": ok1, "bad_rows": bad_rows[:10], "unexplained": unexplained[:10], "out": out1[-1500:]})
+    explained = flagged | {r["label"] for r in bad_rows if r["res"][0] != ("A" if r["onnx"] is not None else "R") or
+                           (r["res"][0] == "A" and r["res"][2] != r["onnx"])}
     if not ok1:
-        run.fail("proof", "C13/spelling-table", "spell_check canon table = true does not hold for the regenerated spelling table",
-                 {"offending_rows": bad_rows[:20], "coqc": out1[-1500:]})
+        # the obligation fails; every offending row is a concrete input already reported as an `impl` failure above
+        # (so a listed known finding accounts for it) - otherwise the table failure is reported on its own
+        if any(r["label"] not in explained for r in bad_rows) or not bad_rows:
+            run.fail("proof", "C13/spelling-table", "spell_check canon table = true does not hold for the regenerated spelling table",
+                     {"offending_rows": bad_rows[:20], "coqc": out1[-1500:]})
+        else:
+            run.notes.append("generated obligation spelling_canonical_now NOT discharged: offending rows "
+                             f"{[r['label'] for r in bad_rows]} (each reported as an impl failure / known finding)")
     else:
         run.discharged += 1
     if not ok2:
@@ -710,8 +718,9 @@ def shrink_pair(i, j, bad):
 
 
 SMALL_SHAPES = [None, (), (1,), (2,), ("N",), (None,), (2, 3), (2, "N"), ("N", "M"), (1, 2, 3)]
-THOROUGH_SHAPES = SMALL_SHAPES + [(0,), (3,), ("M",), (1, 1), (None, 3), (2, None, "N")]
-SMALL_ELEMS = [1, 7, 8, 16]
+THOROUGH_SHAPES = SMALL_SHAPES + [(0,), (3,), ("M",), (1, 1), (None, 3), (2, None, "N"), (0, 0), (3, "M"), (None, None),
+                                  (1, None), (2, 3, 1), ("N", "N", "N"), (None, 2, 3), (3, 2, 1)]
+SMALL_ELEMS = [1, 6, 7, 8, 16]
 
 
 def subdomain(elems, shapes):
@@ -944,7 +953,7 @@ def check_pairs_all(run, impl, cov):
     t0 = time.time()
     vp = impl.val_pair
     n_true = n_eq = n_oracle = 0
-    stride = 1 if quick else 29   # oracle on every pair (quick) / every 29th pair (thorough; the correspondence covers all)
+    stride = 1 if quick else 61   # oracle on every pair (quick) / every 29th pair (thorough; the correspondence covers all)
     seen_mech = set()
     cnt = 0
     for ai, a in enumerate(tys):
@@ -984,7 +993,7 @@ def check_pairs_all(run, impl, cov):
 
 def check_pairs_sampled(run, impl, cov):
     quick = run.tier == "quick"
-    n = 60000 if quick else 480000
+    n = 60000 if quick else 1000000
     CH = 500
     seed = run.seed
     vals = [0] * n
